@@ -39,6 +39,12 @@ impl<T: ?Sized> Drop for MutexGuard<'_, T> {
     fn drop(&mut self) {
         // TODO(eric): it would be nice to do something about
         // `Result` here.
+        #[cfg(aranya_verif)]
+        crate::verif::point(
+            crate::verif::site::MUTEX_UNLOCK,
+            self.lock.key.as_ptr() as usize,
+            0,
+        );
         let _ = self.lock.sys_unlock();
     }
 }
@@ -139,6 +145,8 @@ impl<T: ?Sized> Mutex<T> {
         allow(dead_code)
     )]
     pub fn lock(&self) -> LockResult<MutexGuard<'_, T>> {
+        #[cfg(aranya_verif)]
+        crate::verif::point(crate::verif::site::MUTEX_LOCK, self.key.as_ptr() as usize, 0);
         self.sys_lock();
         Ok(MutexGuard {
             lock: self,
@@ -181,6 +189,8 @@ impl<T: ?Sized> Mutex<T> {
         use crate::mutex::macos::futex_wait;
 
         // Fast path: the mutex is unlocked.
+        #[cfg(aranya_verif)]
+        crate::verif::point(crate::verif::site::MUTEX_CAS1, self.key.as_ptr() as usize, 0);
         let mut wait = match self.key.compare_exchange(
             Self::MUTEX_UNLOCKED,
             Self::MUTEX_LOCKED,
@@ -194,7 +204,11 @@ impl<T: ?Sized> Mutex<T> {
         const PASSIVE_SPIN: i32 = 5;
         loop {
             for _ in 0..PASSIVE_SPIN {
+                #[cfg(aranya_verif)]
+                crate::verif::point(crate::verif::site::MUTEX_SPIN_LOAD, self.key.as_ptr() as usize, 0);
                 while self.key.load(Ordering::Relaxed) == Self::MUTEX_UNLOCKED {
+                    #[cfg(aranya_verif)]
+                    crate::verif::point(crate::verif::site::MUTEX_SPIN_CAS, self.key.as_ptr() as usize, 0);
                     if likely!(
                         self.key
                             .compare_exchange(
@@ -209,10 +223,14 @@ impl<T: ?Sized> Mutex<T> {
                     }
                     // SAFETY: FFI call, no invariants.
                     unsafe { libc::sched_yield() };
+                    #[cfg(aranya_verif)]
+                    crate::verif::point(crate::verif::site::MUTEX_SPIN_LOAD, self.key.as_ptr() as usize, 0);
                 }
             }
 
             // Could not grab the lock; go to sleep.
+            #[cfg(aranya_verif)]
+            crate::verif::point(crate::verif::site::MUTEX_SWAP, self.key.as_ptr() as usize, 0);
             if self.key.swap(Self::MUTEX_SLEEPING, Ordering::SeqCst) == Self::MUTEX_UNLOCKED {
                 return;
             }
@@ -242,6 +260,8 @@ impl<T: ?Sized> Mutex<T> {
         #[cfg(target_os = "macos")]
         use crate::mutex::macos::futex_wake;
 
+        #[cfg(aranya_verif)]
+        crate::verif::point(crate::verif::site::MUTEX_UNLOCK_SWAP, self.key.as_ptr() as usize, 0);
         match self.key.swap(Self::MUTEX_UNLOCKED, Ordering::SeqCst) {
             Self::MUTEX_UNLOCKED => ::buggy::bug!("unlock of locked mutex"),
             Self::MUTEX_SLEEPING => futex_wake(&self.key, 1)?,
@@ -280,6 +300,10 @@ mod linux {
     }
 
     pub fn futex_wait(uaddr: &AtomicU32, val: u32) {
+        #[cfg(aranya_verif)]
+        if crate::verif::futex(crate::verif::FUTEX_OP_WAIT, uaddr, val) {
+            return;
+        }
         let _ = futex(
             ptr::from_ref::<AtomicU32>(uaddr),
             FUTEX_WAIT,
@@ -291,6 +315,10 @@ mod linux {
     }
 
     pub fn futex_wake(uaddr: &AtomicU32, cnt: u32) -> Result<(), Bug> {
+        #[cfg(aranya_verif)]
+        if crate::verif::futex(crate::verif::FUTEX_OP_WAKE, uaddr, cnt) {
+            return Ok(());
+        }
         futex(
             ptr::from_ref::<AtomicU32>(uaddr),
             FUTEX_WAKE,
